@@ -1,4 +1,4 @@
-import Pds.Proofs.KernelTie.TdGuard
+import Pds.Proofs.KernelTie.TdGuardQ
 import Pds.Proofs.KernelTie.TdCore
 import Pds.Proofs.KernelTie.TdRead
 import Pds.Props.C15
